@@ -61,6 +61,36 @@ type errSite struct {
 	val  ssa.Value // the call value (tuple or single)
 	e    ssa.Value // the error value (Extract or the call itself), nil if dropped
 	name string
+	// proxy: the callee reports failure through a final bool result (ok == false),
+	// not an error; e is that bool and "non-nil" reads "false"
+	proxy bool
+}
+
+// okProxy: an unexported library function without an error result whose last
+// result is a bool and that answers a failed (error-returning) call inside it
+// with `return ..., false`: its callers must treat ok == false as the failure.
+func okProxy(c *Ctx, f *ssa.Function) bool {
+	if f == nil || f.Pkg != c.SLib || f.Blocks == nil || errIndex(f.Signature) >= 0 {
+		return false
+	}
+	res := f.Signature.Results()
+	if res.Len() < 2 || !types.Identical(res.At(res.Len()-1).Type(), types.Typ[types.Bool]) {
+		return false
+	}
+	hasErrCall, hasFalse := false, false
+	for _, b := range f.Blocks {
+		for _, in := range b.Instrs {
+			if call, ok := in.(*ssa.Call); ok && errIndex(call.Call.Signature()) >= 0 {
+				hasErrCall = true
+			}
+		}
+		if ret := blockReturn(b); ret != nil {
+			if bv, ok := constBool(retResults(ret)[res.Len()-1]); ok && !bv {
+				hasFalse = true
+			}
+		}
+	}
+	return hasErrCall && hasFalse
 }
 
 func errSites(c *Ctx, fn *ssa.Function) []errSite {
@@ -74,6 +104,18 @@ func errSites(c *Ctx, fn *ssa.Function) []errSite {
 			sig := call.Call.Signature()
 			idx := errIndex(sig)
 			if idx < 0 {
+				if sc := staticCallee(call); okProxy(c, sc) {
+					ps := errSite{call: call, val: call, name: calleeName(call), proxy: true}
+					last := sig.Results().Len() - 1
+					if call.Referrers() != nil {
+						for _, r := range *call.Referrers() {
+							if ex, ok := r.(*ssa.Extract); ok && ex.Index == last && ex.Referrers() != nil && len(*ex.Referrers()) > 0 {
+								ps.e = ex
+							}
+						}
+					}
+					out = append(out, ps)
+				}
 				continue
 			}
 			s := errSite{call: call, val: call, name: calleeName(call)}
@@ -125,6 +167,34 @@ type nilTest struct {
 	blk     *ssa.BasicBlock
 	nonNil  int
 	through ssa.Value
+}
+
+// okTests: If instructions that branch on a failure-proxy bool (ok / !ok);
+// the "non-nil" edge is the one taken when ok is false.
+func okTests(flow map[ssa.Value]bool) []nilTest {
+	var out []nilTest
+	for v := range flow {
+		if v.Referrers() == nil {
+			continue
+		}
+		for _, r := range *v.Referrers() {
+			switch r := r.(type) {
+			case *ssa.If:
+				if r.Cond == v {
+					out = append(out, nilTest{blk: r.Block(), nonNil: 1, through: v})
+				}
+			case *ssa.UnOp:
+				if r.Op == token.NOT && r.Referrers() != nil {
+					for _, rr := range *r.Referrers() {
+						if ifi, ok := rr.(*ssa.If); ok && ifi.Cond == ssa.Value(r) {
+							out = append(out, nilTest{blk: ifi.Block(), nonNil: 0, through: v})
+						}
+					}
+				}
+			}
+		}
+	}
+	return out
 }
 
 func nilTests(flow map[ssa.Value]bool) []nilTest {
@@ -263,6 +333,10 @@ func checkErrSite(c *Ctx, r *RuleResult, fn *ssa.Function, s errSite, key, pos s
 
 	flow := errFlow(s.e)
 	tests := nilTests(flow)
+	if s.proxy {
+		tests = okTests(flow)
+		inLib = true
+	}
 	errSlot := errIndex(fn.Signature)
 	callBlk := s.call.Block()
 
@@ -477,6 +551,14 @@ func checkNonNilEdge(c *Ctx, fn *ssa.Function, s errSite, flow map[ssa.Value]boo
 				}
 				problem = "the return at " + c.pos(ret.Pos()) + " yields a status that may be 0"
 			default:
+				// a function that reports failure through its final bool result
+				if nres := fn.Signature.Results().Len(); nres >= 2 && types.Identical(fn.Signature.Results().At(nres-1).Type(), types.Typ[types.Bool]) {
+					if bv, ok := constBool(retResults(ret)[nres-1]); ok && !bv {
+						return // ok == false: the callers are held to it (ok-proxy sites)
+					}
+					problem = "the return at " + c.pos(ret.Pos()) + " does not report the failure (its final bool result is not false)"
+					return
+				}
 				problem = "the function cannot report the failure (no error result) and returns at " + c.pos(ret.Pos())
 			}
 			return
